@@ -471,15 +471,30 @@ func (x *Exec) Write(r Ref, off uint64, data []byte, cntField uint32, stable nt.
 	x.logf("WRITE %s off=%d cnt=%d len=%d stable=%d tag=%x", r.Desc, off, cntField, len(data), stable, tagOf(data))
 	var res nt.WRITE3res
 	arg := nt.WRITE3args{File: r.fh(), Offset: nt.Offset3(off), Count: nt.Count3(cntField), Stable: stable, Data: append([]byte{}, data...)}
-	if err := x.call(func() { res = x.S.API().NFSPROC3_WRITE(arg) }); err != nil {
-		return err
-	}
-	scribble(arg.Data) // the request buffer belongs to the transport again (it is reused for the next message)
 	cnt := uint64(cntField)
 	want := r.N != nil && r.N.Kind == nt.NF3REG && cnt <= x.M.Lim.WtMax && cnt <= uint64(len(data)) &&
 		off+cnt >= off && off+cnt <= x.M.Lim.MaxFileSize
+	// a WRITE that must be refused, or that writes nothing, leaves every attribute of the object as it was
+	var before, after nt.GETATTR3res
+	noEffect := r.N != nil && (!want || cnt == 0)
+	if err := x.call(func() {
+		if noEffect {
+			before = x.S.API().NFSPROC3_GETATTR(nt.GETATTR3args{Object: r.fh()})
+		}
+		res = x.S.API().NFSPROC3_WRITE(arg)
+		if noEffect {
+			after = x.S.API().NFSPROC3_GETATTR(nt.GETATTR3args{Object: r.fh()})
+		}
+	}); err != nil {
+		return err
+	}
+	scribble(arg.Data) // the request buffer belongs to the transport again (it is reused for the next message)
 	if err := x.status(res.Status, want, r); err != nil {
 		return err
+	}
+	if noEffect && !want && res.Status != nt.NFS3_OK && before.Status == nt.NFS3_OK && (after.Status != nt.NFS3_OK || before.Resok.Obj_attributes != after.Resok.Obj_attributes) {
+		return x.errf("WRITE was refused (status %d) but changed the object's attributes: before %+v, after (status %d) %+v",
+			res.Status, before.Resok.Obj_attributes, after.Status, after.Resok.Obj_attributes)
 	}
 	if !want || !x.LastOK {
 		return nil
